@@ -96,14 +96,22 @@ func (i *Index) Add(r Record, c bgzf.Chunk, placed, mapped bool) error {
 	rid, ok := i.nameMap[refName]
 	if !ok {
 		rid = len(i.refNames)
+	}
+	shim := tabixShim{id: rid, start: r.Start(), end: r.End()}
+	err := i.idx.Add(shim, internal.BinFor(r.Start(), r.End()), c, placed, mapped)
+	if err != nil {
+		return err
+	}
+	if !ok && placed {
+		// Only a record that was placed on a reference makes its name
+		// a reference name; the name list must match the references.
 		i.refNames = append(i.refNames, refName)
 		if i.nameMap == nil {
 			i.nameMap = make(map[string]int)
 		}
 		i.nameMap[refName] = rid
 	}
-	shim := tabixShim{id: rid, start: r.Start(), end: r.End()}
-	return i.idx.Add(shim, internal.BinFor(r.Start(), r.End()), c, placed, mapped)
+	return nil
 }
 
 // Chunks returns a []bgzf.Chunk that corresponds to the given genomic interval.
